@@ -2372,6 +2372,14 @@ func (db *DB) sync(ctx context.Context, checkpointing bool, exec *syncExecutor, 
 		}
 	}
 
+	// The page data was read from the WAL by offset after the frames had been
+	// validated. Make sure the WAL was not restarted in between.
+	if len(pageMap) > 0 {
+		if err := verifyWALGeneration(walFile, rd.salt1, rd.salt2); err != nil {
+			return result, fmt.Errorf("copy wal pages: %w", err)
+		}
+	}
+
 	// Encode final trailer to the end of the LTX file.
 	db.setSyncDiagPhase(diagPhaseCloseLTX, func(s *diagState) {
 		s.txID = txID
@@ -2461,6 +2469,32 @@ func (db *DB) sync(ctx context.Context, checkpointing bool, exec *syncExecutor, 
 	db.Logger.Debug("db sync", "status", "ok")
 
 	return result, nil
+}
+
+// errWALRestartedDuringCopy is returned when the WAL was restarted while its
+// frames were being copied.
+var errWALRestartedDuringCopy = errors.New("wal restarted during copy")
+
+// verifyWALGeneration returns an error if the WAL file no longer begins with
+// the header of the generation identified by the salts.
+//
+// Our read transaction does not keep the application from restarting a WAL
+// that is completely checkpointed (for example after a checkpoint of ours whose
+// bookkeeping write failed, or when the database is opened over such a WAL).
+// Frames that were valid when the page map was built are then overwritten by
+// the new generation while their page data is still being read by offset.
+// SQLite rewrites the WAL header before it writes the first frame of a new
+// generation, so an unchanged header after the copy means the copied frames
+// were intact.
+func verifyWALGeneration(walFile *os.File, salt1, salt2 uint32) error {
+	hdr := make([]byte, WALHeaderSize)
+	if _, err := walFile.ReadAt(hdr, 0); err != nil {
+		return fmt.Errorf("%w: reread wal header: %w", errWALRestartedDuringCopy, err)
+	}
+	if binary.BigEndian.Uint32(hdr[16:]) != salt1 || binary.BigEndian.Uint32(hdr[20:]) != salt2 {
+		return errWALRestartedDuringCopy
+	}
+	return nil
 }
 
 func (db *DB) writeLTXFromDB(ctx context.Context, enc *ltx.Encoder, walFile *os.File, commit uint32, pageMap map[uint32]int64) error {
@@ -2905,6 +2939,8 @@ type snapshotReadPosition struct {
 	pos          ltx.Pos
 	pageSize     int
 	walEndOffset int64
+	walSalt1     uint32 // salts of the WAL generation walEndOffset refers to
+	walSalt2     uint32 // (both zero if no frames are to be read from the WAL)
 	db           *DB
 	closeOnce    sync.Once
 	done         chan struct{} // closed when the stream goroutine has exited
@@ -2978,7 +3014,7 @@ func (db *DB) snapshotPosition(ctx context.Context) (*snapshotReadPosition, erro
 		return nil, &DBNotReadyError{Reason: "wal not copied since the database was opened"}
 	}
 
-	walEndOffset, err := db.snapshotWALEndOffset(pos)
+	walEndOffset, walSalt1, walSalt2, err := db.snapshotWALEndOffset(pos)
 	if err != nil {
 		return nil, err
 	}
@@ -2996,6 +3032,8 @@ func (db *DB) snapshotPosition(ctx context.Context) (*snapshotReadPosition, erro
 		pos:          pos,
 		pageSize:     pageSize,
 		walEndOffset: walEndOffset,
+		walSalt1:     walSalt1,
+		walSalt2:     walSalt2,
 		db:           db,
 		done:         make(chan struct{}),
 	}, nil
@@ -3005,24 +3043,24 @@ func (db *DB) snapshotPosition(ctx context.Context) (*snapshotReadPosition, erro
 // the given position. db.syncState is read without db.mu because every writer
 // mutates it while holding execSem, which the caller also holds. The offset is
 // only meaningful for the WAL generation the last LTX file was copied from.
-func (db *DB) snapshotWALEndOffset(pos ltx.Pos) (int64, error) {
+func (db *DB) snapshotWALEndOffset(pos ltx.Pos) (offset int64, salt1, salt2 uint32, err error) {
 	if pos.TXID == 0 {
 		if db.syncState.lastSyncedWALOffset > 0 {
-			return db.syncState.lastSyncedWALOffset, nil
+			return db.syncState.lastSyncedWALOffset, 0, 0, nil
 		}
-		return WALHeaderSize, nil
+		return WALHeaderSize, 0, 0, nil
 	}
 
 	ltxPath := db.LTXPath(0, pos.TXID, pos.TXID)
 	f, err := os.Open(ltxPath)
 	if err != nil {
-		return 0, NewLTXError("open", ltxPath, 0, uint64(pos.TXID), uint64(pos.TXID), err)
+		return 0, 0, 0, NewLTXError("open", ltxPath, 0, uint64(pos.TXID), uint64(pos.TXID), err)
 	}
 	defer func() { _ = f.Close() }()
 
 	dec := ltx.NewDecoder(f)
 	if err := dec.DecodeHeader(); err != nil {
-		return 0, NewLTXError("decode", ltxPath, 0, uint64(pos.TXID), uint64(pos.TXID), fmt.Errorf("%w: %w", ErrLTXCorrupted, err))
+		return 0, 0, 0, NewLTXError("decode", ltxPath, 0, uint64(pos.TXID), uint64(pos.TXID), fmt.Errorf("%w: %w", ErrLTXCorrupted, err))
 	}
 
 	// Compare WAL headers. If the WAL was restarted since this LTX file was
@@ -3030,12 +3068,12 @@ func (db *DB) snapshotWALEndOffset(pos ltx.Pos) (int64, error) {
 	// apply to the current WAL.
 	hdr, err := readWALHeader(db.WALPath())
 	if os.IsNotExist(err) || errors.Is(err, io.EOF) || errors.Is(err, io.ErrUnexpectedEOF) {
-		return WALHeaderSize, nil
+		return WALHeaderSize, 0, 0, nil
 	} else if err != nil {
-		return 0, fmt.Errorf("cannot read wal header: %w", err)
+		return 0, 0, 0, fmt.Errorf("cannot read wal header: %w", err)
 	}
-	salt1 := binary.BigEndian.Uint32(hdr[16:])
-	salt2 := binary.BigEndian.Uint32(hdr[20:])
+	salt1 = binary.BigEndian.Uint32(hdr[16:])
+	salt2 = binary.BigEndian.Uint32(hdr[20:])
 	if salt1 != dec.Header().WALSalt1 || salt2 != dec.Header().WALSalt2 {
 		// The WAL was restarted after the last sync (for example by the
 		// application's next write when our own post-checkpoint bookkeeping
@@ -3043,23 +3081,23 @@ func (db *DB) snapshotWALEndOffset(pos ltx.Pos) (int64, error) {
 		// in the LTX file applies to the new generation, and its frames are
 		// not part of the position we would advertise. The next sync sorts
 		// this out; refuse the snapshot until then.
-		return 0, &DBNotReadyError{Reason: "wal restarted since the last sync"}
+		return 0, 0, 0, &DBNotReadyError{Reason: "wal restarted since the last sync"}
 	}
 
 	ltxEndOffset := dec.Header().WALOffset + dec.Header().WALSize
-	if offset := db.syncState.lastSyncedWALOffset; offset > 0 {
+	if syncedOffset := db.syncState.lastSyncedWALOffset; syncedOffset > 0 {
 		// The in-memory offset must be the end of the WAL range recorded in
 		// the LTX file of the position we advertise. It is not after the local
 		// LTX files were removed and re-fetched from the replica at an older
 		// position (ResetLocalState, database behind replica) while the cursor
 		// of the last sync stayed in memory: the frames in between belong to
 		// later transactions. The next sync re-establishes the cursor.
-		if ltxEndOffset > 0 && offset != ltxEndOffset {
-			return 0, &DBNotReadyError{Reason: "sync state does not match the local position"}
+		if ltxEndOffset > 0 && syncedOffset != ltxEndOffset {
+			return 0, 0, 0, &DBNotReadyError{Reason: "sync state does not match the local position"}
 		}
-		return offset, nil
+		return syncedOffset, salt1, salt2, nil
 	}
-	return ltxEndOffset, nil
+	return ltxEndOffset, salt1, salt2, nil
 }
 
 func (db *DB) snapshotReader(ctx context.Context, pos *snapshotReadPosition) (io.ReadCloser, error) {
@@ -3108,6 +3146,12 @@ func (db *DB) snapshotReader(ctx context.Context, pos *snapshotReadPosition) (io
 			commit = walCommit
 		}
 
+		// The bound only applies to the generation it was taken from.
+		if len(pageMap) > 0 && (pos.walSalt1 != 0 || pos.walSalt2 != 0) && (rd.salt1 != pos.walSalt1 || rd.salt2 != pos.walSalt2) {
+			pw.CloseWithError(fmt.Errorf("snapshot wal read: %w", errWALRestartedDuringCopy))
+			return
+		}
+
 		if maxOffset > pos.walEndOffset {
 			pw.CloseWithError(fmt.Errorf("snapshot wal read exceeded bound: max offset %d > end offset %d", maxOffset, pos.walEndOffset))
 			return
@@ -3148,6 +3192,15 @@ func (db *DB) snapshotReader(ctx context.Context, pos *snapshotReadPosition) (io
 		if err := db.writeLTXFromDB(ctx, enc, walFile, commit, pageMap); err != nil {
 			pw.CloseWithError(fmt.Errorf("write snapshot ltx: %w", err))
 			return
+		}
+
+		// Page data was read from the WAL by offset after the frames had been
+		// validated. Fail the snapshot if the WAL was restarted in between.
+		if len(pageMap) > 0 {
+			if err := verifyWALGeneration(walFile, rd.salt1, rd.salt2); err != nil {
+				pw.CloseWithError(fmt.Errorf("write snapshot ltx: %w", err))
+				return
+			}
 		}
 
 		if err := enc.Close(); err != nil {
